@@ -77,6 +77,9 @@ type histGen struct {
 	kinds     map[string]int
 	weights   []string
 	groupN    int
+	// plainAmountsForAdmins avoids balance-relative amounts for genesis admins (their balance depends on fee income,
+	// which a differential run without the failed transactions does not have)
+	plainAmountsForAdmins bool
 }
 
 var (
@@ -116,7 +119,15 @@ func (g *histGen) actor(label string) *sim.Key {
 }
 
 func (g *histGen) amount(from *sim.Key) string {
-	switch rapid.IntRange(0, 8).Draw(g.t, "amountKind") {
+	k := rapid.IntRange(0, 8).Draw(g.t, "amountKind")
+	if g.plainAmountsForAdmins && (k == 2 || k == 3) {
+		for _, a := range g.w.N.Admins {
+			if a == from {
+				k = 8
+			}
+		}
+	}
+	switch k {
 	case 0:
 		return "0"
 	case 1:
